@@ -41,3 +41,18 @@ Example yearfrac_ex :
   /\ date_time.f_yearfrac (VInt 45322) (VInt 44000) (VInt 3) = Ok (VFloat (1322 # 365))
   /\ date_time.f_yearfrac (VInt 45322) (VInt 44000) (VInt 4) = date_time.f_yearfrac (VInt 44000) (VInt 45322) (VInt 4).
 Proof. repeat split; vm_compute; reflexivity. Qed.
+
+(* the same through the decorator wrapper (Model/DateFuncs.v), with an integer basis or none *)
+From PV Require Import Model.Wrap Model.DateFuncs.
+Lemma X_yearfrac_int a b bs :
+  X_yearfrac [VInt a; VInt b; VInt bs] = date_time.f_yearfrac (VInt a) (VInt b) (VInt bs)
+  /\ X_yearfrac [VInt a; VInt b] = date_time.f_yearfrac (VInt a) (VInt b) (VInt 0).
+Proof. split; reflexivity. Qed.
+
+Lemma yearfrac_wrapped_symmetric a b bs :
+  X_yearfrac [VInt a; VInt b; VInt bs] = X_yearfrac [VInt b; VInt a; VInt bs]
+  /\ X_yearfrac [VInt a; VInt b] = X_yearfrac [VInt b; VInt a].
+Proof.
+  destruct (X_yearfrac_int a b bs) as [E1 E2]. destruct (X_yearfrac_int b a bs) as [E3 E4].
+  rewrite E1, E2, E3, E4. split; apply yearfrac_symmetric.
+Qed.
